@@ -89,6 +89,8 @@ impl Authenticator {
     /// the last nonce used (the next AEAD call uses inc_seq of it)
     spec fn n(&self) -> Seq<u8> { self.nonce_generator.nonce@ }
     spec fn same_key(&self, o: &Authenticator) -> bool { self.alg() == o.alg() && self.key() == o.key() }
+    /// the 96-bit counter nonce fits the cipher (the XChaCha variants take 24 bytes and are never used for streams)
+    spec fn wf(&self) -> bool { self.method.alg() < 4 }
 
     fn new(method: CipherMethod) -> (r: Self)
         ensures r.alg() == method.alg(), r.key() == method.key(),
@@ -105,7 +107,7 @@ impl Authenticator {
     }
 
     fn encode_size(&mut self, bytes: &mut [u8]) -> (r: Result<(), aes_gcm::aead::Error>)
-        requires old(bytes)@.len() >= 16
+        requires old(self).wf(), old(bytes)@.len() >= 16
         ensures final(self).same_key(old(self)),
             //#C12 C03
             final(self).n() == inc_seq(old(self).n()),
@@ -117,7 +119,7 @@ impl Authenticator {
     }
 
     fn decode_size(&mut self, data: &mut BytesMut) -> (r: Result<usize, aes_gcm::aead::Error>)
-        requires old(data)@.len() >= 18
+        requires old(self).wf(), old(data)@.len() >= 18
         ensures final(self).same_key(old(self)),
             //#C12 C05
             final(self).n() == inc_seq(old(self).n()),
@@ -133,6 +135,7 @@ impl Authenticator {
     }
 
     fn seal(&mut self, plaintext: &mut impl Buffer) -> (r: Result<(), aes_gcm::aead::Error>)
+        requires old(self).wf(),
         ensures final(self).same_key(old(self)),
             //#C12 C03
             final(self).n() == inc_seq(old(self).n()),
@@ -143,6 +146,7 @@ impl Authenticator {
     }
 
     fn open(&mut self, ciphertext: &mut impl Buffer) -> (r: Result<(), aes_gcm::aead::Error>)
+        requires old(self).wf(),
         ensures final(self).same_key(old(self)),
             //#C12 C05
             final(self).n() == inc_seq(old(self).n()),
@@ -164,12 +168,12 @@ pub struct ChunkEncoder {
 impl ChunkEncoder {
     /// largest plaintext carried by one chunk
     spec fn cap(&self) -> nat { (self.payload_limit - 34) as nat }
-    spec fn wf(&self) -> bool { 34 < self.payload_limit <= 0xFFFF + 34 }
+    spec fn wf(&self) -> bool { 34 < self.payload_limit <= 0xFFFF + 34 && self.auth.wf() }
 
     /// R9 (unsafe aliasing of dst's spare capacity): ASSUMED contract, cross-checked differentially by the replay harness
     #[verifier::external_body]
     fn encode_chunk(&mut self, src: &mut BytesMut, len: usize, dst: &mut BytesMut) -> (r: Result<(), aes_gcm::aead::Error>)
-        requires len <= old(src)@.len(), len <= 0xFFFF,
+        requires old(self).auth.wf(), len <= old(src)@.len(), len <= 0xFFFF,
         ensures final(self).auth.same_key(&old(self).auth), final(self).payload_limit == old(self).payload_limit,
             final(self).auth.n() == inc2(old(self).auth.n()),
             final(src)@ == old(src)@.skip(len as int),
@@ -194,7 +198,7 @@ impl ChunkEncoder {
         let limit = self.payload_limit - self.auth.method.tag_size() - self.size_bytes();
         while src.has_remaining()
             invariant
-                self.auth.same_key(&old(self).auth), self.payload_limit == old(self).payload_limit,
+                self.auth.same_key(&old(self).auth), self.auth.wf(), self.payload_limit == old(self).payload_limit,
                 limit == old(self).cap(), 0 < limit <= 0xFFFF,
                 old(dst)@ + wire_chunks(old(self).auth.alg(), old(self).auth.key(), old(self).auth.n(), old(self).cap(), src0)
                     == dst@ + wire_chunks(self.auth.alg(), self.auth.key(), self.auth.n(), old(self).cap(), src@),
@@ -219,6 +223,7 @@ impl ChunkEncoder {
     }
 
     fn encode_packet(&mut self, mut src: BytesMut, dst: &mut BytesMut) -> (r: Result<(), aes_gcm::aead::Error>)
+        requires old(self).auth.wf(),
         ensures final(self).auth.same_key(&old(self).auth),
             //#C12 C03 C02
             final(self).auth.n() == inc_seq(old(self).auth.n()),
@@ -237,7 +242,7 @@ impl ChunkEncoder {
     }
 
     fn encode_size(&mut self, size_bytes: &mut [u8]) -> (r: Result<(), aes_gcm::aead::Error>)
-        requires old(size_bytes)@.len() >= 16
+        requires old(self).auth.wf(), old(size_bytes)@.len() >= 16
         ensures final(self).auth.same_key(&old(self).auth), final(self).payload_limit == old(self).payload_limit,
             final(self).auth.n() == inc_seq(old(self).auth.n()),
             final(size_bytes)@.len() == old(size_bytes)@.len(),
@@ -262,15 +267,17 @@ impl ChunkDecoder {
     spec fn alg(&self) -> int { self.auth.alg() }
     spec fn key(&self) -> Seq<u8> { self.auth.key() }
     spec fn n(&self) -> Seq<u8> { self.auth.n() }
-    spec fn wf(&self) -> bool { st_wf(self.abs()) }
+    spec fn wf(&self) -> bool { st_wf(self.abs()) && self.auth.wf() }
 
     fn new(auth: Authenticator) -> (r: Self)
+        requires auth.wf(),
         ensures r.auth == auth, r.abs() == St::Length, r.wf(),
     {
         Self { auth, state: DecodeState::Length }
     }
 
     fn decode_packet(&mut self, src: &mut BytesMut) -> (r: Result<BytesMut, aes_gcm::aead::Error>)
+        requires old(self).auth.wf(),
         ensures final(self).auth.same_key(&old(self).auth), final(self).n() == inc_seq(old(self).n()),
             //#C05 C02 C03
             match aead_open(old(self).alg(), old(self).key(), inc_seq(old(self).n()), Seq::empty(), old(src)@) {
@@ -369,7 +376,7 @@ impl ChunkDecoder {
     }
 
     fn decode_size(&mut self, data: &mut BytesMut) -> (r: Result<usize, aes_gcm::aead::Error>)
-        requires old(data)@.len() >= 18
+        requires old(self).auth.wf(), old(data)@.len() >= 18
         ensures final(self).auth.same_key(&old(self).auth), final(self).state == old(self).state,
             final(self).n() == inc_seq(old(self).n()),
             match aead_open(old(self).alg(), old(self).key(), inc_seq(old(self).n()), Seq::empty(), old(data)@) {
